@@ -3568,6 +3568,7 @@ def native_listing_suite(repo, tier):
         o = ground_obligation(oid, False, str(res.get("note", "no answer from the replayer"))[:300], "client.py", kind="bounded", backend="native",
                               definite=False)
     o["bounded"] = True
+    o["bound"] = "fake Graph libraries: depth <= 3, <= 6 items per folder, page sizes 1..4, one injected fault per run (see BOUNDED)"
     return {"obligations": [o], "functions": []}
 
 
@@ -3599,9 +3600,6 @@ ASSUMED_MODELS = [
     "json.loads / json.dumps, bytes.decode, str.encode, str.lower (uninterpreted), fnmatch.fnmatch (uninterpreted), urllib.parse "
     "urlparse / quote / urlencode (uninterpreted, total), urllib.request.Request (full_url = url given; assumed not to raise), "
     "datetime.fromisoformat (ValueError iff not accepted)",
-    "call-site views of VERIFIED contracts (abstractions, not assumptions): FileFilter.matches / get_target_folders at the listing "
-    "level are the abstract MATCHES / target list (own contracts in Part A); _build_children_url is the opaque CU / CUROOT of its "
-    "verified Graph-path contract (round 7)",
     "urllib.request.Request(url, headers=..): the Authorization header of the new object is the dict entry given (definition on a "
     "fresh object, like full_url)",
 ]
@@ -3614,6 +3612,8 @@ ASSUMPTIONS = [
     "structural string steps (find / split / slice / endswith on concatenations) are each justified by a solver query on the path "
     "condition; lemma chains take-all.*, take-snoc.*, members-by-index.* are composed by transitivity outside the solver",
     "recursive spec functions WALK / WF are meaningful on finite acyclic libraries only (TREE-FINITE)",
+    "modular call-site views of verified contracts (no assumption): the listing layer sees FileFilter.matches / get_target_folders as the "
+    "abstract MATCHES / target list (contracts in Part A) and the children URL as the opaque CU / CUROOT of its verified Graph-path contract",
 ]
 BOUNDED = [
     {"what": "native replay (replay/C18.py): random libraries of depth <= 3, <= 6 items per folder, page sizes 1..4, 10 fault kinds at "
@@ -3621,7 +3621,11 @@ BOUNDED = [
      "role": "witness search and validation of the assumed models; since round 4 also the BOUNDED obligation `native-listing-suite` "
              "(12 fault kinds incl. empty bodies, folder timestamps, percent-escape folder names; round 6: paging links with query "
              "strings, read() failing after the response was handed out, 15 crafted path-pattern sets, request-error fields), "
-             "counted as bounded-ok, never as discharged"},
+             "counted as bounded-ok, never as discharged",
+     "bound": "libraries of depth <= 3 with <= 6 items per folder, page sizes 1..4, one fault per run; covers what stays assumed "
+              "symbolically (server routing, T-DET, lazy generator interleavings).  Round 7: the URL formats it used to stand in "
+              "for (_build_children_url, folder lookup, site lookup) and the Authorization header are now discharged deductive "
+              "obligations; the suite only cross-checks them"},
 ]
 
 # path pruning only: an undecided feasibility query keeps the path (sound); short budgets keep generation fast on
